@@ -11,6 +11,27 @@ static void obs(struct printbuf *p, long ret, int err)
 	printf(" %d", (p->bpos < p->size && p->buf[p->bpos] == 0) ? 1 : 0);
 }
 
+/* T<n>: two threads, each formatting n short texts into its OWN print buffer at the same time; every
+ * buffer must hold exactly what its thread wrote (sprintbuf keeps no state between or across calls) */
+#include <pthread.h>
+struct tw { int id; long n; long bad; struct printbuf *p; };   /* buffers are made and freed by the main thread: the accounting allocator is single-threaded */
+static void *tw_run(void *arg)
+{
+	struct tw *w = (struct tw *)arg;
+	struct printbuf *p = w->p;
+	char pat[16], want[64];
+	long i;
+	memset(pat, 'a' + w->id, 8); pat[8] = 0;
+	for (i = 0; i < w->n && p; i++) {
+		int len, ret;
+		printbuf_reset(p);
+		ret = sprintbuf(p, "%c:%s=%ld", 'a' + w->id, pat, i);
+		len = snprintf(want, sizeof want, "%c:%s=%ld", 'a' + w->id, pat, i);
+		if (ret != len || p->bpos != len || memcmp(p->buf, want, (size_t)len + 1) != 0) w->bad++;
+	}
+	return NULL;
+}
+
 void run_case(char *rest)
 {
 	char *sp = strchr(rest, ' ');
@@ -68,6 +89,14 @@ void run_case(char *rest)
 			default: ret = sprintbuf(p, "%s%c%s%c%s%c%s", piece[0], 0, piece[1], 0, piece[2], 0, piece[3]); break;
 			}
 			err = errno; (free)(b); (free)(z); break; }
+		case 'T': {
+			pthread_t th[2]; struct tw w[2]; int k;
+			for (k = 0; k < 2; k++) { w[k].id = k; w[k].n = atol(tok + 1); w[k].bad = 0; w[k].p = printbuf_new(); }
+			for (k = 0; k < 2; k++) pthread_create(&th[k], NULL, tw_run, &w[k]);
+			for (k = 0; k < 2; k++) pthread_join(th[k], NULL);
+			for (k = 0; k < 2; k++) if (w[k].p) printbuf_free(w[k].p);
+			printf("threads %ld", w[0].bad + w[1].bad);
+			continue; }
 		case 'X':
 			/* the arguments point into the print buffer itself (only generated right after an append, when
 			 * the contents are NUL-terminated) */
